@@ -63,6 +63,10 @@ def plan(tier, seed):
             for be in (["numpy", "pytorch"] if tier == "thorough" else ["numpy"]):
                 for st in STATS:
                     cases.append({"kind": "real", "model": mn, "optimizer": opt, "backend": be, "stat": st})
+    for opt in opts:
+        for st in STATS:
+            for w_ in (0.8, 1.25):
+                cases.append({"kind": "real", "model": "onoff", "optimizer": opt, "backend": "numpy", "stat": st, "hold_nuisance": w_})
     return dict(
         cases=cases, chunk=2,
         rule="scripted case = (backend, statistic, POI lower bound) x mu_hat in {-0.5,-1e-9,0,0.3,pred(mu),mu,succ(mu),mu+0.2,9} x gap in "
@@ -174,15 +178,24 @@ def real(case):
         bounds[m.config.poi_index] = (lower, 10.0)
         tol = TOL[case["optimizer"]]
         fn = statfn(st)
+        init = m.config.suggested_init()
+        fixedp = m.config.suggested_fixed()
+        refmdl = mdl
+        hold = case.get("hold_nuisance")
+        if hold is not None:
+            # the caller holds the nuisance constant at `hold` (init_pars + fixed_params): the statistic is that of the POI-only model with background hold*b
+            init[1 - m.config.poi_index] = hold
+            fixedp[1 - m.config.poi_index] = True
+            refmdl = R.Counting("poi", s=[[mdl.s]], b=[[mdl.b * hold]])
         sets = [(d, None) for d in datasets(mdl, zero=(mdl.kind == "poi" or lower == 0.0))]
         for mu_a in (0.5, 1.0):  # Asimov data at mu_a: the best fit is mu_a exactly
-            sets.append(([float(x) for x in mdl.expected_data(mu_a, 1.0)][: mdl.nmain], mu_a))
+            sets.append(([float(x) for x in mdl.expected_data(mu_a, hold if hold is not None else 1.0)][: mdl.nmain], mu_a))
         for main, mu_a in sets:
             data = list(main) + mdl.nominal_aux()
             for mu in (0.0, 0.25, 0.5, 1.0, 2.0, 4.0):
-                ctx = dict(model=case["model"], optimizer=case["optimizer"], backend=be, stat=st, data=main, mu=mu)
+                ctx = dict(model=case["model"], optimizer=case["optimizer"], backend=be, stat=st, data=main, mu=mu, hold_nuisance=case.get("hold_nuisance"))
                 try:
-                    val, (fx, fr) = fn(mu, C.tens(data), m, m.config.suggested_init(), bounds, m.config.suggested_fixed(), return_fitted_pars=True)
+                    val, (fx, fr) = fn(mu, C.tens(data), m, init, bounds, fixedp, return_fitted_pars=True)
                 except Exception as e:
                     issues.append(C.issue(f"C06:real:{st}:{type(e).__name__}:{case['optimizer']}", f"statistic raised on a well-posed closed-form model: {e}"[:200], **ctx))
                     continue
@@ -190,7 +203,7 @@ def real(case):
                 mu_eff = 0.0 if st == "q0" else mu
                 ncmp += 4
                 # closed form
-                t_ref, muhat_ref = mdl.tmu(mu_eff, data, (lower, 10.0))
+                t_ref, muhat_ref = refmdl.tmu(mu_eff, data[: refmdl.nmain] if refmdl is not mdl else data, (lower, 10.0))
                 muhat = float(np.asarray(tl.tolist(fr))[m.config.poi_index])
                 if st in ("q", "qtilde"):
                     ref = 0.0 if muhat_ref > mu else float(t_ref)
